@@ -40,4 +40,10 @@ META = {
         "note": "Trusted: the hand-written constraint table (transcribed from Validate's messages), encoding/json for well-formedness of generated documents, tmpfs. Critical threshold equal to warning threshold is treated as undecided by the documentation. Strings are valid UTF-8. Engine cases use small sane configurations and wait for the background flush after every write.",
         "technique": "table-oracle property testing (rapid) + save/load round trip + exhaustive truncation enumeration + directory-snapshot invariant",
     },
+    "C12": {
+        "text": "Metamorphic, by search, at three levels. Component: generated SSTable directories (1-6 overlapping level-0 files with controlled recency, 0-2 deeper levels, overwrites and deletion markers placed across files) are compacted by the real coordinator (TriggerCompaction repeated, CompactRange with drawn bounds; fresh tombstone tracker = state after restart, or a tracker knowing a drawn subset); the newest-wins live view known from generation must equal the view an engine opened on the directory reads before and after; outputs strictly ascending. Engine: C01-style workloads with compactions, flushes, 'retire' (flushed log files dropped through the repository's retention code) and reopen; every key after every step and a full scan after each reopen equal the map model. Crash: the same in a child killed at compaction.*/sstable.* hook sites; the reopened state must be the exact pre-crash state.",
+        "design_ref": "DESIGN.md section 5, C12",
+        "note": "Recency of generated files follows the engine's rule (deeper level older; within level 0 higher sequence/timestamp newer); files inside deeper levels do not overlap. Tombstone retention by wall-clock age (24 h) is out of reach. Crash = process death at hook sites. Trusted: generation-time view, map model.",
+        "technique": "metamorphic live-view equality over generated SSTable sets and engine workloads; crash points inside compaction (rapid)",
+    },
 }
